@@ -1,6 +1,7 @@
 #!/bin/bash
 # Final re-evaluation of every confirmed seed with the current harness: the seed's own property's check
 # plus every check that caught it before. usage: reeval_all.sh <seed root> [<seed root> ...]
+# MODE=own restricts the re-run to the own check (+ C05 where listed); other records are kept (--merge).
 # Resumable: seeds whose eval.json is newer than $MARKER (default /tmp/reeval.marker) are skipped;
 # `touch /tmp/reeval.stop` ends the loop before the next seed (never in the middle of one).
 MARKER=${MARKER:-/tmp/reeval.marker}
@@ -20,11 +21,12 @@ props = [own]
 ej = os.path.join(sd, "eval.json")
 if os.path.exists(ej):
     for p in json.load(open(ej)).get("caught_by") or []:
-        if p not in props: props.append(p)
+        # MODE=own: only the seed's own property's check, and C05 where it was listed (its oracle changed)
+        if p not in props and (os.environ.get("MODE") != "own" or p == "C05"): props.append(p)
 print(",".join(props))
 PY
     props=$(cat /tmp/reeval.props)
     [ -n "$props" ] || continue
-    python3 /verif/tools/eval_seeds.py $sd --props $props
+    python3 /verif/tools/eval_seeds.py $sd --props $props --merge
   done
 done
